@@ -2956,6 +2956,9 @@ static int32_t parseGeneralNames(psPool_t *pool, const unsigned char **buf,
 #   define MIN_GENERALNAME_LEN 3 /* 1 tag, 1 length octet, 1 content octet.*/
     while (len >= MIN_GENERALNAME_LEN)
     {
+        /* Each name gets its own terminator accounting: a trailing zero
+           byte in one name must not affect the names that follow it. */
+        terminating_nils = 1;
         if (firstName == NULL)
         {
             activeName = firstName = psMalloc(pool, sizeof(x509GeneralName_t));
